@@ -43,6 +43,12 @@ func (w *tw) nodes(ns []Node, depth int) {
 			w.loop(n.Loop, depth)
 		case n.Probe != nil:
 			w.probe(n.Probe)
+		case n.Inc != nil:
+			w.sb.WriteString(`<template include="comp.vuego"`)
+			for _, pr := range n.Inc.Props {
+				w.sb.WriteString(` ` + pr.N + `="` + pr.S + `"`)
+			}
+			w.sb.WriteString(`></template>`)
 		case n.Text != nil:
 			w.sb.WriteString(n.Text.ID + "(")
 			for k, r := range n.Text.Reads {
@@ -85,6 +91,8 @@ func (w *tw) probe(p *Probe) {
 			w.sb.WriteString(`<b data-m="` + id + `" v-if="` + r.expr() + `">t</b>`)
 		case "attr":
 			w.sb.WriteString(`<u data-m="` + id + `" :data-x="` + r.Path + `">a</u>`)
+		case "nattr":
+			w.sb.WriteString(`<u data-m="` + id + `" :` + head(r.Path) + `="` + r.Path + `">a</u>`)
 		case "thtml":
 			w.sb.WriteString(`<s data-m="` + id + `"><template v-html="` + r.Path + `"></template></s>`)
 		case "vhtml":
@@ -120,7 +128,11 @@ func (w *tw) loop(l *Loop, depth int) {
 		// and bound ones are written through to the parent scope on purpose)
 		w.sb.WriteString(` data-m="` + l.ID + `"`)
 		if l.Bind != "" {
-			w.sb.WriteString(` :data-x="` + l.Bind + `"`)
+			as := l.BindAs
+			if as == "" {
+				as = "data-x"
+			}
+			w.sb.WriteString(` :` + as + `="` + l.Bind + `"`)
 		}
 		if l.Fill != nil {
 			w.sb.WriteString(` ` + l.Fill.Dir + `="` + l.Fill.Path + `"`)
@@ -150,6 +162,8 @@ func buildTemplate(c Case) string {
 	w.sb.WriteString("</div>")
 	return w.sb.String()
 }
+
+func head(path string) string { return strings.SplitN(path, ".", 2)[0] }
 
 func itoa(n int) string {
 	if n == 0 {
